@@ -124,7 +124,31 @@ InBuf::InBuf(const bytes_t &v, bool null_if_empty, unsigned align) : mem(0), p(0
 InBuf::~InBuf() { if (mem) munmap(mem, maplen); }
 #endif
 
-OutBuf::OutBuf(size_t n_, unsigned align_) : n(n_), align(align_) {
+// Every other output buffer that was not asked for a particular alignment is "tight": its last byte is the last
+// accessible byte (the end of the heap block under AddressSanitizer, the byte before an inaccessible page
+// otherwise), so that a load or store past the documented size faults even when it puts back the value it read -
+// a canary cannot see that, and another thread's object may live there.  The others keep the trailing canary
+// zone, which contains an overrun and lets the run go on.
+static thread_local unsigned g_outbuf_seq = 0;
+OutBuf::OutBuf(size_t n_, unsigned align_) : n(n_), align(align_), tight(false), maplen(0) {
+    tight = align == 0 && n > 0 && (++g_outbuf_seq & 1);
+    if (tight) {
+#ifdef DRV_ASAN
+        mem = (uint8_t *)malloc(GUARD + n);
+        if (!mem) fatal("oom");
+        p = mem + GUARD;
+#else
+        size_t pg = 4096, data = ((n + GUARD + pg - 1) / pg) * pg;
+        maplen = data + pg;
+        mem = (uint8_t *)mmap(0, maplen, PROT_READ | PROT_WRITE, MAP_PRIVATE | MAP_ANONYMOUS, -1, 0);
+        if (mem == (uint8_t *)MAP_FAILED) fatal("mmap");
+        mprotect(mem + data, pg, PROT_NONE);
+        p = mem + data - n;
+#endif
+        memset(p - GUARD, 0xA5, GUARD);
+        for (size_t i = 0; i < n; ++i) p[i] = fill(i);
+        return;
+    }
     mem = (uint8_t *)malloc(n + 2 * GUARD + align);
     if (!mem) fatal("oom");
     memset(mem, 0xA5, GUARD + align);
@@ -132,11 +156,15 @@ OutBuf::OutBuf(size_t n_, unsigned align_) : n(n_), align(align_) {
     for (size_t i = 0; i < n; ++i) p[i] = fill(i);
     memset(p + n, 0x5A, GUARD);
 }
-OutBuf::~OutBuf() { free(mem); }
+OutBuf::~OutBuf() { if (maplen) munmap(mem, maplen); else free(mem); }
 // set once a canary next to an output buffer or object has been found overwritten: from then on the
 // process image cannot be trusted, and a later harness error is the library's doing, not the plan's
 bool g_memory_corrupted = false;
 bool OutBuf::guards_ok() const {
+    if (tight) {
+        for (size_t i = 1; i <= GUARD; ++i) if (p[-(ptrdiff_t)i] != 0xA5) { g_memory_corrupted = true; return false; }
+        return true;
+    }
     for (size_t i = 0; i < GUARD + align; ++i) if (mem[i] != 0xA5) { g_memory_corrupted = true; return false; }
     for (size_t i = 0; i < GUARD; ++i) if (p[n + i] != 0x5A) { g_memory_corrupted = true; return false; }
     return true;
